@@ -180,6 +180,19 @@ pub fn check(c: &Case) -> Verdict {
     let opts = DumpOpts { blamed: pid, user_mappings: users.clone(), direct_auxv: if entry_module.is_some() { Some(aux) } else { None }, ..Default::default() };
     let maps = parse_maps(&t.maps_text().unwrap_or_default());
     let mut w = make_writer(pid, &opts);
+    // a third of the cases: the image judged is the second (or the retry after a failed first) request of
+    // the same writer - the module list must not depend on what an earlier request consumed
+    let h = fp_json(c);
+    if h % 3 == 0 {
+        let fault = if (h >> 8) % 2 == 0 { crate::vcore::dest::Fault::None } else { crate::vcore::dest::Fault::ErrAt(20 + (h >> 16) % 60) };
+        let mut first = Dest::new(vec![], 0).with_fault(fault);
+        if let DumpOutcome::Panic(l, m) = run_dump(&mut w, &mut first) {
+            return panic_verdict(&l, &m);
+        }
+        if !t.wait_settled(&spec) {
+            return Verdict::Inconclusive("target did not settle between two requests".into());
+        }
+    }
     let mut dest = Dest::new(vec![], 0);
     let img = match run_dump(&mut w, &mut dest) {
         DumpOutcome::Ok(v) => v,
@@ -337,7 +350,7 @@ pub fn run(ctx: &mut LaneCtx) {
         SubSpec {
             name: "live-modules",
             cases: (1_440, 25_000),
-            rule: "1..6 synthetic ELF images per target (ELF kit: with/without build-id note via PT_NOTE or section, id lengths 0..64 incl. all-zero, with/without SONAME via PT_DYNAMIC/SHT_DYNAMIC, with/without section table, 64/32 bit, LE/BE) in files named with spaces / non-ASCII (also characters outside the Basic Multilingual Plane) / .so.N versions, mapped loader-style in 1..4 parts of differing permissions with optional PROT_NONE gap, or 'APK style' from a non-zero offset, some unlinked after mapping, some non-ELF; direct auxv entry address inside a synthetic module or kernel auxv; 0..3 user mappings containing / partially overlapping / disjoint; oracle in assumptions; non-trivial = >=2 images with different feature sets or a user mapping that suppresses a module; distinct = hash of case",
+            rule: "1..6 synthetic ELF images per target (ELF kit: with/without build-id note via PT_NOTE or section, id lengths 0..64 incl. all-zero, with/without SONAME via PT_DYNAMIC/SHT_DYNAMIC, with/without section table, 64/32 bit, LE/BE) in files named with spaces / non-ASCII (also characters outside the Basic Multilingual Plane) / .so.N versions, mapped loader-style in 1..4 parts of differing permissions with optional PROT_NONE gap, or 'APK style' from a non-zero offset, some unlinked after mapping, some non-ELF; direct auxv entry address inside a synthetic module or kernel auxv; 0..3 user mappings containing / partially overlapping / disjoint; in a third of the cases the judged image is the second request (or the retry after a failed one) of the same writer; oracle in assumptions; non-trivial = >=2 images with different feature sets or a user mapping that suppresses a module; distinct = hash of case",
             strategy: case_strategy().boxed(),
             max_shrink_iters: 150,
             log_current: true,
